@@ -10,6 +10,28 @@ type fuse struct {
 	crashed   bool
 	effects   int
 	writes    []string
+	// gate, when set, is called (with no lock held) whenever a call that may have an external effect arrives at a
+	// simulated neighbour: a store write RPC, a topo write, a device Set. Split steps (hold / release) park there.
+	gate func(kind string)
+}
+
+// Gate is called by the simulations at the arrival of a possibly effectful call, before any lock is taken.
+func (f *fuse) Gate(kind string) {
+	if f == nil {
+		return
+	}
+	f.mu.Lock()
+	g := f.gate
+	f.mu.Unlock()
+	if g != nil {
+		g(kind)
+	}
+}
+
+func (f *fuse) SetGate(g func(kind string)) {
+	f.mu.Lock()
+	f.gate = g
+	f.mu.Unlock()
 }
 
 func newFuse() *fuse { return &fuse{remaining: -1} }
